@@ -182,6 +182,8 @@ func (j *cacheJanitor[MetadataT]) evict(maxCacheBytes int64) {
 		return cmp.Compare(y.priority, x.priority) // Swapped x and y for descending order
 	})
 
+	verifYield("janitor.evict.afterScan")
+
 	// Evict entries until we're under the limit
 	targetSize := int64(float64(maxCacheBytes) * 0.8) // Evict to 80% to avoid thrashing
 
